@@ -75,6 +75,7 @@ class Hist:
     metric: bool = True
     preload: list = field(default_factory=list)   # ("node", id, type, pv, sn, sv, bat, hb, reboot, sleeping) / ("child", n, key, cid, ctype, desc) / ("val", n, key, t, v)
     ops: list = field(default_factory=list)       # ("recv", line, faults, time) / ("send", fields|None, buffer, faults) / SESSION
+    #                                               / ("send", fields, buffer, faults, handle) / ("assign", handle, fields, ())
 
     def to_json(self):
         return {"version": self.version, "metric": self.metric, "preload": [list(p) for p in self.preload],
@@ -90,6 +91,37 @@ class Hist:
 # object.  Not an operation of the Lean model: the model's state (registry, version, both buffers) must simply be
 # the same afterwards, which is how the comparison treats it (no driver line, expected observation "ok", no writes).
 SESSION = ("session", "", (), None)
+
+
+# The caller's own `Message` objects.  A plain `("send", fields, buffer, faults)` builds a Message for that one call and
+# drops it.  `("send", fields, buffer, faults, handle)` is a send of the caller's object `handle` (a small number): the
+# first operation that names a handle creates the instance with these fields; every later one takes THE SAME instance,
+# assigns to the attributes that differ from `fields` (the caller changing its own object: `msg.payload = "0"`) and
+# hands it to `send` again.  `("assign", handle, fields, ())` is such an assignment without a send - for instance to an
+# object that is being held for a sleeping node.  In the Lean model: `Model/Objects.lean` (`gsendo` / `gassign`).
+MSG_ATTRS = ("node_id", "child_id", "command", "ack", "message_type", "payload")
+
+
+def assign_op(handle: int, fields) -> tuple:
+    return ("assign", handle, tuple(fields), ())
+
+
+def caller_object(objs: dict, handle, fields):
+    """The caller's object `handle`, reading `fields`: created, or the existing instance with its attributes assigned."""
+    obj = objs.get(handle)
+    if obj is None:
+        obj = objs[handle] = Message(*fields)
+        return obj
+    for name, value in zip(MSG_ATTRS, fields):
+        if getattr(obj, name) != value:
+            setattr(obj, name, value)
+    return obj
+
+
+def entry_is_message(gateway, obj, fields) -> bool:
+    """Is the sleep buffer's entry under the key of `fields` the message `obj` (or a copy that reads the same)?"""
+    e = gateway._message_buffer.set_messages.get((fields[0], fields[1], fields[4]))
+    return e is not None and (e is obj or tuple(getattr(e, a, None) for a in MSG_ATTRS) == tuple(fields))
 
 
 def b(x: bool) -> str:
@@ -184,12 +216,14 @@ async def _run_impl(h: Hist):
     gw, tr = build_gateway(h)
     persistent = (len(h.ops) + len(h.preload) + (0 if h.version is None else len(h.version))) % 3 != 0
     listener = None
+    objs: dict = {}              # the caller's Message objects by handle
     obs = [{"out": "init", "writes": [], "state": render_state(gw), "nodes": snapshot_nodes(gw),
             "pv": gw.protocol_version, "proto": gw.protocol.VERSION,
             "sbuf": [(k, m.payload) for k, m in gw._message_buffer.set_messages.items()],
             "ibuf": list(gw._message_buffer.internal_messages)}]
     for op in h.ops:
         tr.attempts = []
+        held = None
         if op[0] == "recv":
             _, line, faults, now = op
             tr.lines = [line]
@@ -215,16 +249,26 @@ async def _run_impl(h: Hist):
                 out = "ok"
             except BaseException as e:  # noqa: BLE001
                 out = render_exc(e)
+        elif op[0] == "assign":
+            caller_object(objs, op[1], op[2])
+            out = "ok"
         else:
-            _, fields, buffer, faults = op
+            _, fields, buffer, faults = op[:4]
             tr.faults = list(faults)
-            obj = Message(*fields) if fields is not None else "not a message"
+            if len(op) > 4:
+                obj = caller_object(objs, op[4], fields)
+            else:
+                obj = Message(*fields) if fields is not None else "not a message"
+            held_before = fields is not None and entry_is_message(gw, obj, fields)
             try:
                 await gw.send(obj, message_buffer=buffer)
                 out = "ok"
             except BaseException as e:  # noqa: BLE001
                 out = render_exc(e)
-        obs.append({"out": out, "writes": list(tr.attempts), "state": render_state(gw), "nodes": snapshot_nodes(gw),
+            # after the call: is the message that was sent the buffer's entry for its key, and did this call make it so?
+            held = fields is not None and entry_is_message(gw, obj, fields)
+            held = (held, held and not held_before)
+        obs.append({"out": out, "held": held, "writes": list(tr.attempts), "state": render_state(gw), "nodes": snapshot_nodes(gw),
                     "pv": gw.protocol_version, "proto": gw.protocol.VERSION,
                     "sbuf": [(k, m.payload) for k, m in gw._message_buffer.set_messages.items()],
                     "ibuf": list(gw._message_buffer.internal_messages)})
@@ -268,6 +312,12 @@ def model_lines(h: Hist) -> list[str]:
         elif op[0] == "session":
             out.append("gdump")
             continue
+        elif op[0] == "assign":
+            n, c, cmd, ack, t, p = op[2]
+            out.append(f"gassign {op[1]} {n} {c} {cmd} {ack} {t} {enc(p)}")
+        elif len(op) > 4:
+            _, (n, c, cmd, ack, t, p), buffer, faults, handle = op
+            out.append(f"gsendo {handle} {b(buffer)} {faults_tok(faults)} {n} {c} {cmd} {ack} {t} {enc(p)}")
         else:
             _, fields, buffer, faults = op
             if fields is None:
